@@ -773,3 +773,161 @@ Proof.
   - intros d Hd. cbn in Hd. destruct Hd as [<-|[<-|[<-|[]]]]; cbn [members];
       repeat constructor; cbn; intuition discriminate.
 Qed.
+
+(* ================================================================== existence of a disjoint assignment (whole batch) *)
+Fixpoint all_compat (groups : list (list Z)) (new chosen : list item) : Prop :=
+  match new with
+  | [] => True
+  | x :: t => Forall (fun c => compat groups x c = true) chosen /\ all_compat groups t (x :: chosen)
+  end.
+
+Lemma assign_spec groups : forall rqs chosen,
+  assign groups rqs chosen = true <->
+  exists ls, Forall2 (fun rq l => In l (snd rq)) rqs ls /\ all_compat groups (combine (map fst rqs) ls) chosen.
+Proof.
+  induction rqs as [|(r, cs) rest IH]; intros chosen; cbn [assign].
+  - split; [intros _; exists []; split; [constructor|exact I]|reflexivity].
+  - rewrite existsb_lazy_spec. split.
+    + intros (l & Hl & H). destruct (forallb (compat groups (r, l)) chosen) eqn:Ef; [|discriminate].
+      apply IH in H. destruct H as (ls & Hls & Hac). exists (l :: ls). split; [constructor; assumption|].
+      cbn [map fst combine all_compat]. split; [|exact Hac]. apply Forall_forall. rewrite forallb_forall in Ef. exact Ef.
+    + intros (ls & Hls & Hac). inversion Hls as [|? l ? ls' Hl Hls']; subst. cbn [map fst combine all_compat snd] in *.
+      destruct Hac as (Hf & Hac). exists l. split; [exact Hl|].
+      assert (Ef : forallb (compat groups (r, l)) chosen = true).
+      { apply forallb_forall. rewrite Forall_forall in Hf. exact Hf. }
+      rewrite Ef. apply IH. exists ls'. split; assumption.
+Qed.
+
+Lemma all_compat_split groups : forall new chosen,
+  all_compat groups new chosen <->
+  Forall (fun x => Forall (fun c => compat groups x c = true) chosen) new /\
+  ForallOrdPairs (fun x y => compat groups y x = true) new.
+Proof.
+  induction new as [|x t IH]; intros chosen; cbn [all_compat].
+  - split; [intros _; split; constructor|tauto].
+  - rewrite IH. split.
+    + intros (Hx & Ht & Hp). split.
+      * constructor; [exact Hx|]. rewrite Forall_forall in *. intros y Hy. specialize (Ht y Hy).
+        inversion Ht; assumption.
+      * constructor; [|exact Hp]. rewrite Forall_forall in *. intros y Hy. specialize (Ht y Hy).
+        inversion Ht; assumption.
+    + intros (Hall & Hp). inversion Hall as [|? ? Hx Ht]; subst. inversion Hp as [|? ? Hxp Hp']; subst.
+      split; [exact Hx|]. split; [|exact Hp']. rewrite Forall_forall in *. intros y Hy. constructor.
+      * apply Hxp. exact Hy.
+      * apply Ht. exact Hy.
+Qed.
+
+Lemma conflict_sym groups a b : conflict groups a b = conflict groups b a.
+Proof.
+  unfold conflict. f_equal; [f_equal; lia|]. induction groups as [|g t IH]; [reflexivity|]. cbn [existsb].
+  rewrite IH. f_equal. apply andb_comm.
+Qed.
+
+Lemma conflict_spec groups a b :
+  conflict groups a b = true <-> a <> b /\ exists grp, In grp groups /\ In a grp /\ In b grp.
+Proof.
+  unfold conflict. rewrite andb_true_iff, existsb_exists. split.
+  - intros (Hne & grp & Hg & H). apply andb_true_iff in H. destruct H as (Ha & Hb). apply memZ_In in Ha, Hb.
+    split; [lia|]. exists grp. repeat split; assumption.
+  - intros (Hne & grp & Hg & Ha & Hb). split; [lia|]. exists grp. split; [exact Hg|].
+    apply andb_true_iff. split; apply memZ_In; assumption.
+Qed.
+
+Lemma compat_paths n groups a pa b pb :
+  compat groups (b, links n pb) (a, links n pa) = true <->
+  (conflict groups a b = true -> no_common_link n pa pb).
+Proof.
+  unfold compat. cbn [fst snd]. rewrite (conflict_sym groups b a), share_sym.
+  destruct (conflict groups a b); cbn [negb orb].
+  - rewrite negb_true_iff, share_false. tauto.
+  - split; [discriminate|reflexivity].
+Qed.
+
+Lemma Forall2_pick {A B C} (P : A -> B -> Prop) (f : B -> C) : forall l ls,
+  Forall2 (fun a c => exists b, P a b /\ c = f b) l ls -> exists bs, Forall2 P l bs /\ ls = map f bs.
+Proof.
+  induction 1 as [|a c l ls (b & Hb & ->) _ (bs & Hbs & ->)]; [exists []; split; constructor|].
+  exists (b :: bs). split; [constructor; assumption|reflexivity].
+Qed.
+
+Lemma FOP_map {A B} (f : A -> B) (R : B -> B -> Prop) : forall l,
+  ForallOrdPairs R (map f l) <-> ForallOrdPairs (fun x y => R (f x) (f y)) l.
+Proof.
+  induction l as [|x t IH]; cbn [map]; [split; constructor|]. split; intros H; inversion H; subst; constructor;
+    try (apply IH; assumption).
+  - rewrite Forall_map in *. assumption.
+  - rewrite Forall_map. assumption.
+Qed.
+
+Definition cand_items (n : net) (cutoff : nat) (rqs : list breq) : list (Z * list (list (Z * Z))) :=
+  map (fun r => (b_id r, map (links n) (cands n (b_src r) (b_dst r) (b_inc r) cutoff))) rqs.
+
+Lemma cands_pick n cutoff : forall rqs ls,
+  Forall2 (fun rq l => In l (snd rq)) (cand_items n cutoff rqs) ls ->
+  Forall2 (fun r l => exists p, (Route (ngraph n) (b_src r) (b_dst r) (b_inc r) p /\ (length p <= S cutoff)%nat)
+                                /\ l = links n p) rqs ls.
+Proof.
+  induction rqs as [|r t IH]; intros ls H; cbn [cand_items map] in H.
+  - inversion H; subst. constructor.
+  - inversion H as [|x l xs ls' Hin Hrest]; subst. constructor; [|apply IH; exact Hrest].
+    cbn [snd] in Hin. apply in_map_iff in Hin. destruct Hin as (p & <- & Hp). apply cands_spec in Hp.
+    exists p. split; [exact Hp|reflexivity].
+Qed.
+
+Lemma cands_unpick n cutoff : forall rqs ps,
+  Forall2 (fun r p => Route (ngraph n) (b_src r) (b_dst r) (b_inc r) p /\ (length p <= S cutoff)%nat) rqs ps ->
+  Forall2 (fun rq l => In l (snd rq)) (cand_items n cutoff rqs) (map (links n) ps).
+Proof.
+  induction 1 as [|r p rqs' ps' (Hr & Hl) _ IH]; cbn [cand_items map]; constructor; [|exact IH].
+  cbn [snd]. apply in_map. apply cands_spec. split; assumption.
+Qed.
+
+Lemma cand_items_ids n cutoff rqs : map fst (cand_items n cutoff rqs) = map b_id rqs.
+Proof. unfold cand_items. rewrite map_map. reflexivity. Qed.
+
+Lemma combine_map_links n : forall (ids : list Z) (ps : list (list Z)),
+  combine ids (map (links n) ps) = map (fun x : Z * list Z => (fst x, links n (snd x))) (combine ids ps).
+Proof. induction ids as [|i ids IH]; intros [|p ps]; cbn; try reflexivity. rewrite IH. reflexivity. Qed.
+
+Lemma FOP_ext {A} (R R' : A -> A -> Prop) l :
+  (forall x y, R x y -> R' x y) -> ForallOrdPairs R l -> ForallOrdPairs R' l.
+Proof.
+  intros H. induction 1 as [|a l Ha _ IH]; constructor; [|exact IH].
+  rewrite Forall_forall in *. intros y Hy. apply H. apply Ha. exact Hy.
+Qed.
+
+(* sound and complete: an assignment exists exactly when the procedure says so (routes of at most cutoff links).
+   The statement is positional: for any two positions i < j of the batch whose requests are named together in some
+   group, the chosen routes share no link. *)
+Theorem exists_disjoint_assignment_spec n cutoff groups rqs :
+  exists_disjoint_assignment n cutoff groups rqs = true <->
+  exists ps,
+    Forall2 (fun r p => Route (ngraph n) (b_src r) (b_dst r) (b_inc r) p /\ (length p <= S cutoff)%nat) rqs ps /\
+    ForallOrdPairs (fun x y => conflict groups (fst x) (fst y) = true -> no_common_link n (snd x) (snd y))
+                   (combine (map b_id rqs) ps).
+Proof.
+  unfold exists_disjoint_assignment. fold (cand_items n cutoff rqs). rewrite assign_spec, cand_items_ids. split.
+  - intros (ls & Hls & Hac). apply all_compat_split in Hac. destruct Hac as (_ & Hp).
+    destruct (Forall2_pick _ _ _ _ (cands_pick n cutoff rqs ls Hls)) as (ps & Hps & ->).
+    exists ps. split; [exact Hps|].
+    rewrite combine_map_links in Hp. apply FOP_map in Hp.
+    eapply FOP_ext; [|exact Hp]. intros (a, pa) (b, pb) H. cbn [fst snd] in *. apply compat_paths. exact H.
+  - intros (ps & Hps & Hp). exists (map (links n) ps). split; [apply cands_unpick; exact Hps|].
+    apply all_compat_split. split; [apply Forall_forall; intros x _; constructor|].
+    rewrite combine_map_links. apply FOP_map.
+    eapply FOP_ext; [|exact Hp]. intros (a, pa) (b, pb) H. cbn [fst snd] in *. apply compat_paths. exact H.
+Qed.
+
+(* ================================================================== deduplicate_disjunctions is NOT complete:
+   two groups with the same set of requests and different ids can both survive (remove-while-iterating skips).
+   Six groups a b a a b b (a = {1,2}, b = {3,4}) -> the groups 1, 3, 5 remain, 1 and 5 are both b. *)
+Definition dd_witness : list grp :=
+  [mkG 0 [[1]; [2]]; mkG 1 [[3]; [4]]; mkG 2 [[1]; [2]]; mkG 3 [[1]; [2]]; mkG 4 [[3]; [4]]; mkG 5 [[3]; [4]]].
+Theorem dedup_complete_refuted :
+  exists l d d', NoDup (map gid l) /\ In d (deduplicate l) /\ In d' (deduplicate l) /\
+                 gid d <> gid d' /\ set_eq (members d) (members d') = true.
+Proof.
+  exists dd_witness, (mkG 1 [[3]; [4]]), (mkG 5 [[3]; [4]]).
+  split; [repeat constructor; cbn; intuition discriminate|].
+  split; [vm_compute; tauto|]. split; [vm_compute; tauto|]. split; [discriminate|reflexivity].
+Qed.
